@@ -28,7 +28,8 @@ Inductive fid :=
 | F_Describes | F_Subject | F_Relationship | F_FormerType | F_Deleted
 | F_Href | F_Rel | F_HrefLang | F_Height | F_Width
 | F_UploadMedia | F_OauthAuthorizationEndpoint | F_OauthTokenEndpoint | F_ProvideClientKey
-| F_SignClientKey | F_SharedInbox.
+| F_SignClientKey | F_SharedInbox
+| F_Owner | F_PublicKeyPem | F_Ref | F_Value.
 Scheme Equality for fid.
 
 (* time.Time as (unix seconds, nanoseconds, zone offset in seconds east of UTC) *)
